@@ -334,7 +334,10 @@ def run_straddle_case(spec, which, pos, factor, raise_error):
     f = mfa.flows[which]
     idx = np.unravel_index(pos % max(1, f.values.size), f.values.shape) if f.values.shape else ()
     f.values[idx] = f.values[idx] + factor * tol
-    got, info = verdict_call(mfa, None, raise_error)
+    if factor == 0.0:  # an exactly balanced system is within a tolerance of exactly zero
+        got, info = verdict_call(mfa, 0.0, raise_error)
+    else:
+        got, info = verdict_call(mfa, None, raise_error)
     want = expect_verdict(abs(factor) > 1, raise_error)
     if got != want:
         return fail("verdict", f"-> {got} ({str(info)[:160]}), expected {want} (default tolerance {tol})")
@@ -396,7 +399,7 @@ def run_straddle(u, res):
             continue
         for sc, lvl in (([], 7.0), ([[1, "tp", "balanced"]], 7.0), ([[1, "tp", "balanced"]], 1.0e6)):
             spec = dict(nproc=u["nproc"], flows=flows, stocks=sc, stock_level=lvl)
-            for factor in (0.25, 4.0, -0.25, -4.0):
+            for factor in (0.25, 4.0, -0.25, -4.0, 0.0):
                 for raise_error in (True, False):
                     for pos in (0, 3):
                         oc, f = run_straddle_case(spec, "F1", pos, factor, raise_error)
